@@ -619,13 +619,13 @@ def c04(run):
 
 # ----------------------------------------------------------------------------- XtCli (C13, C14, C15)
 
-def cli_stage(run, cfg, what, tty_maxlen=2, file_maxlen=2):
+def cli_stage(run, cfg, what, tty_maxlen=2, file_maxlen=2, extra_vectors=(), stdin_content=None, failing_stdout=False, required=None):
     import clicheck, cli
     root = clicheck.prepare("%s-%s" % (run.pid, run.tier))
     table = clicheck.lib_table(root)
-    clicheck.write_clilib(table, os.path.join(common.SPEC, "CliLib.tla"))
+    clicheck.write_clilib(table, os.path.join(common.SPEC, "CliLib.tla"), extra_vectors)
     mc = run_tlc("MC_XtCli.tla", cfg, workers=8)
-    check_vacuity(mc, ["ParseStep", "ParseDone", "Guard", "ProcessInput", "FlushAfterInput", "ExitOk"])
+    check_vacuity(mc, required or ["ParseStep", "ParseDone", "Guard", "ProcessInput", "FlushAfterInput", "ExitOk"])
     run.add_mc(mc, "XtCli: " + what)
     gen_cfg = cfg.replace("MC_", "Gen_")
     gen = run_tlc("MC_XtCli.tla", gen_cfg, workers=8, coverage=False)
@@ -633,10 +633,34 @@ def cli_stage(run, cfg, what, tty_maxlen=2, file_maxlen=2):
     if not runs:
         raise ToolError("no CLI runs exported")
     xt_dbg, xt_rel = common.build_xt("debug"), common.build_xt("release")
-    stdin_bytes = clicheck.CONTENTS[clicheck.STDIN]
+    stdin_bytes = clicheck.CONTENTS[stdin_content or clicheck.STDIN]
     jobs = []
     for n, r in enumerate(runs):
         kind = r["stdout"]
+        r["stdin_content"] = stdin_content or clicheck.STDIN
+        if failing_stdout:
+            if r["okw"] != 0:
+                continue            # the driver makes the very first write(2) fail (or the first after k bytes)
+            r["ignore_stdout"] = True
+            binary = xt_dbg if n % 2 else xt_rel
+            if kind == "full":
+                jobs.append((r, "full", binary))
+            else:
+                jobs.append((r, "closed:0", binary))
+                # the consumer takes k bytes first: only where more than a pipe capacity (64 KiB) remains afterwards
+                # ... and only for runs in which every input translates (so that all of that output is really due)
+                ins = all_inputs(r, clicheck)
+                def _ok(p, sel):
+                    c = r["stdin_content"] if p == "-" else clicheck.FILES[p]
+                    return table[(c, sel, r["to"], "reader" if p == "-" else "slice")]["res"] == "ok"
+                clean = (len(ins) == len([a for a in r["argv"] if not a.startswith("-") or a == "-"] or ["-"])
+                         and all(_ok(p, sel) for p, sel in ins) and len({p for p, _ in ins if p == "-"}) <= 1
+                         and [p for p, _ in ins].count("-") <= 1 and (r["to"] != "toml" or len(ins) == 1))
+                total = len(clicheck.expected_stdout(dict(r, done=[{"path": p, "sel": sel} for p, sel in ins]), table)) if (r["exit"] == 13 and clean) else 0
+                for k in (1, 4096, 65536, 100000):
+                    if total > k + 65536 + 16384:
+                        jobs.append((r, "closed:%d" % k, binary))
+            continue
         if kind == "tty" and len(r["argv"]) > tty_maxlen:
             continue
         jobs.append((r, kind, xt_dbg if n % 2 else xt_rel))
@@ -645,7 +669,12 @@ def cli_stage(run, cfg, what, tty_maxlen=2, file_maxlen=2):
 
     def one(job):
         pred, kind, binary = job
-        real = clicheck.run_real(binary, pred["argv"], root, kind, stdin_bytes)
+        if kind == "full":
+            real = clicheck.run_full(binary, pred["argv"], root, stdin_bytes)
+        elif kind.startswith("closed:"):
+            real = clicheck.run_closed(binary, pred["argv"], root, stdin_bytes, int(kind.split(":")[1]))
+        else:
+            real = clicheck.run_real(binary, pred["argv"], root, kind, stdin_bytes)
         return pred, kind, binary, clicheck.judge(pred, real, table), real
     results = cli.pmap(one, jobs, workers=12)
     nontrivial = set()
@@ -662,6 +691,33 @@ def cli_stage(run, cfg, what, tty_maxlen=2, file_maxlen=2):
     run.stages.append({"stage": "replay", "what": "argument vectors exported by TLC executed on the real binaries", "runs": len(results), "distinct_argv": len(runs)})
     run.traces += len(results)
     shutil_rm(root)
+
+
+def all_inputs(r, clicheck):
+    """(path, selection) of every operand of an exported run, in order (for sizing the expected output)."""
+    out = []
+    frm = None
+    argv = r["argv"]
+    ops = []
+    i = 0
+    raw = False
+    while i < len(argv):
+        t = argv[i]
+        if raw or not t.startswith("-") or t == "-":
+            ops.append(t)
+        elif t == "--":
+            raw = True
+        elif t in ("-f", "-t"):
+            if t == "-f" and i + 1 < len(argv):
+                frm = {"j": "json", "y": "yaml", "m": "msgpack", "t": "toml"}.get(argv[i + 1][:1])
+            i += 1
+        elif t.startswith("-f"):
+            frm = {"j": "json", "y": "yaml", "m": "msgpack", "t": "toml"}.get(t[2:3])
+        i += 1
+    for p in ops or ["-"]:
+        ext = {"json": "json", "yaml": "yaml", "yml": "yaml", "toml": "toml", "msgpack": "msgpack"}.get(p.rsplit(".", 1)[-1].lower()) if "." in p and p != "-" else None
+        out.append((p, frm or ext or "detect"))
+    return [(p, s) for p, s in out if p == "-" or p in clicheck.FILES]
 
 
 def shutil_rm(path):
@@ -686,4 +742,40 @@ def c14(run):
                 "(flag, extension, detection) each input gets, and stdout must equal the library's output for exactly that selection on the same bytes")
     cli_stage(run, _q(run, "MC_XtCli_c14.cfg", "MC_XtCli_c14_thorough.cfg"), "source-format resolution order, stdin at most once, stdout = library output", tty_maxlen=0, file_maxlen=3)
     run.assumptions += ["regular files reach the library as slices (mmap), standard input as a reader"]
+    run.exhaustive = True
+
+
+def c15(run):
+    import random
+    run.rule = ("each case = an argument vector naming 1-6 inputs (a few bytes, 40 KB, 300 KB; files and '-') with a failing one at any position (missing file, syntax error "
+                "at the very end of a large input, undetectable content, a value TOML refuses, a second document/input for TOML, a second '-') and a target; XtCli predicts "
+                "which inputs are finished when the run ends; stdout of the real binary (pipe and regular file) must hold exactly their translations, in order, plus at most a "
+                "prefix of what the failing input had produced; TLC checks Survives/AllOut in every state")
+    rnd = random.Random(common.seed() + 15)
+    pool = ["good.json", "doc.yaml", "big.json", "huge.json", "conf.toml", "data.msgpack", "noext"]
+    fails = ["missing.json", "bad.json", "bigbad.json", "text.txt", "-", "null.json"]
+    extra = []
+    for n in range(_q(run, 60, 600)):
+        k = rnd.randint(3, 6)
+        v = [rnd.choice(pool) for _ in range(k)]
+        if rnd.random() < 0.8:
+            v[rnd.randrange(k)] = rnd.choice(fails)
+        if rnd.random() < 0.3:
+            v.insert(rnd.randrange(k + 1), "-")
+        v.insert(rnd.randrange(len(v) + 1), rnd.choice(["-tt", "-ty", "-tm", "-tjson"]))
+        extra.append(v)
+    cli_stage(run, _q(run, "MC_XtCli_c15.cfg", "MC_XtCli_c15_thorough.cfg"), "finished inputs are on the descriptor at every exit (Survives, AllOut)",
+              tty_maxlen=0, file_maxlen=9, extra_vectors=extra)
+    run.assumptions += ["stdout is a pipe read to the end, or a regular file"]
+    run.exhaustive = True
+
+
+def c16(run):
+    run.rule = ("each case = an argument vector over small, 40 KB and 300 KB inputs (files and standard input) and targets, run with standard output (a) a pipe whose reader "
+                "is gone before xt starts, or goes away after taking 1 / 4096 / 65536 / 100000 bytes while more than a pipe capacity of output remains, (b) /dev/full; "
+                "XtCli predicts death by SIGPIPE with empty stderr for (a) whenever anything is written, and exit 1 with an error message for (b); wait status and stderr of "
+                "the real binaries must match; TLC checks the C16 invariants for every number of writes that succeed first")
+    cli_stage(run, _q(run, "MC_XtCli_c16.cfg", "MC_XtCli_c16_thorough.cfg"), "write(2) failures on standard output: EPIPE kills silently, other errors are reported",
+              stdin_content="chuge", failing_stdout=True)
+    run.assumptions += ["a closed reader is produced deterministically: the read end is closed before xt starts, or after k bytes while > 64 KiB + 16 KiB of output remain"]
     run.exhaustive = True
